@@ -8,7 +8,8 @@ and runs `VERIF_REPO=<copy> ./check C02`.  Never touches /repo.
 Expectation per entry: 'viol' = property-breaking, must be a VIOLATION with a failing input;
 'tie' = unobservable on the installed JAX but breaks what the proof relies on: VIOLATION
 no-failing-input-found; 'ok' = equivalent change, must stay OK (no false alarm).
-The seeded changes C02-s1 / C02-s2 are run through tools/seed_run.sh as well.
+The seeded changes C02-s1 / s2 / t1 / t2 / u1 / u2 are run through tools/seed_run.sh as well
+(all must be VIOLATIONs with a failing input).
 """
 import json
 import os
